@@ -33,8 +33,17 @@ func sccKey(comp []*ssa.Function) string {
 		}
 	}
 	sort.Strings(names)
+	// a cycle that contains one of the long-standing recursive walkers is named after it: a helper joining
+	// (or leaving) that cycle does not make it another finding; any other cycle is named by all its members
+	for _, a := range sccAnchors {
+		if seen[a] {
+			return pk + ": cycle through " + a
+		}
+	}
 	return pk + ": " + strings.Join(names, ",")
 }
+
+var sccAnchors = []string{"evalInternal", "parseExpression", "parseIfExpression", "PrettyPrint", "Modify", "Cmp", "Hashable", "Inspect", "JSON", "Unwrap"}
 
 func runC09(c *Ctx, r *Report) {
 	r.Rule("C09.R1", "deadline: the context test is the first effect of evalInternal (no evaluation step happens before it on any path with a context), a cancelled context returns at once, and sleep waits through the state's context")
